@@ -4,6 +4,7 @@
 -/
 import MF.Model.Lexer
 import MF.Model.File
+import MF.Model.Split
 open MF MF.Lex
 
 def hx (b : Bytes) : String := if b.isEmpty then "-" else toHex b
@@ -39,6 +40,14 @@ def handle (line : String) : String :=
   | ["LEX", mode, h] =>
     match ofHex? (if h == "-" then "" else h) with
     | some buf => lexRun buf (mode == "n") (buf.length + 2) Lex.init #[]
+    | none => "BADREQ"
+  | ["SPLIT", h] =>
+    match ofHex? (if h == "-" then "" else h) with
+    | some buf =>
+      match Split.split buf with
+      | .crash => "CRASH"
+      | .err e => s!"ERR:{errKindName e.kind}:{e.pos}:{e.end}"
+      | .ok ps => "OK " ++ " ".intercalate (ps.map (fun p => s!"{p.pos}:{p.end}:{hx p.statement}"))
     | none => "BADREQ"
   | ["POS", h, a, b] =>
     match ofHex? (if h == "-" then "" else h), a.toInt?, b.toInt? with
